@@ -361,10 +361,10 @@ def _own_returns(s):
 
 GUARDS = [
     # (file, function, label, tokens in the test, defining token that must precede on the same block, NaN-safe required)
-    (MESH, "MeshRegion.calcHy", "hy.centre > 0", ["hy.centre", ">0.0"], "hy /= self.dy", True),
-    (MESH, "MeshRegion.calcHy", "hy.xlow > 0", ["hy.xlow", ">0.0"], "hy /= self.dy", True),
-    (MESH, "MeshRegion.calcHy", "hy.ylow > 0", ["hy.ylow", ">0.0"], "hy /= self.dy", True),
-    (MESH, "MeshRegion.calcHy", "hy.corners > 0", ["hy.corners", ">0.0"], "hy /= self.dy", True),
+    (MESH, "MeshRegion.calcHy", "hy.centre > 0", ["hy.centre > 0.0"], "hy /= self.dy", True),
+    (MESH, "MeshRegion.calcHy", "hy.xlow > 0", ["hy.xlow > 0.0"], "hy /= self.dy", True),
+    (MESH, "MeshRegion.calcHy", "hy.ylow > 0", ["hy.ylow > 0.0"], "hy /= self.dy", True),
+    (MESH, "MeshRegion.calcHy", "hy.corners > 0", ["hy.corners > 0.0"], "hy /= self.dy", True),
     (MESH, "MeshRegion.calcMetric", "Jacobian check at centre", ["check.centre"], "check =", True),
     (MESH, "MeshRegion.calcMetric", "Jacobian check at ylow", ["check.ylow"], "check =", True),
     (MESH, "MeshRegion.calcMetric", "Jacobian check at xlow", ["check.xlow"], None, True),
@@ -468,7 +468,7 @@ def r2(prog, rep):
                 or (t in ("notrecover", "not(recover)") and _raising(i0.body))
     rep.ob("R2", "perpendicular follower re-raises the iteration-cap exception unless `recover`", ok, fp.site(), "", key="guard/followPerpendicular/maxits")
     inner = [x for x in ast.walk(fp.node) if isinstance(x, ast.FunctionDef) and x.name == "f"]
-    ok = bool(inner) and any(isinstance(x, ast.If) and "call_counter>=maxits" in fp.module.code(x.test) and _raising(x.body) for x in ast.walk(inner[0]))
+    ok = bool(inner) and any(isinstance(x, ast.If) and K("call_counter >= maxits") in fp.module.code(x.test) and _raising(x.body) for x in ast.walk(inner[0]))
     rep.ob("R2", "perpendicular follower counts right-hand-side calls and raises at maxits", ok, fp.site(), "", key="guard/followPerpendicular/counter")
 
 
